@@ -159,10 +159,15 @@ impl DnsCache {
     /// of letters (e.g. "example.local.", "Example.local.", "EXAMPLE.local.").
     pub(crate) fn get_addresses_for_host(&self, host: &str) -> HashMap<String, HashSet<ScopedIp>> {
         let hostname_lower = host.to_lowercase();
+        let now = current_time_millis();
         let mut result = HashMap::new();
 
         if let Some(records) = self.addr.get(&hostname_lower) {
             for record in records {
+                // An expired record stays in the cache until the next eviction.
+                if record.record.get_record().is_expired(now) {
+                    continue;
+                }
                 if let Some(dns_addr) = record.record.any().downcast_ref::<DnsAddress>() {
                     let record_name = record.record.get_name().to_string();
                     let address = dns_addr.address();
